@@ -131,6 +131,7 @@ def run_op_case(impl, op, dtype, mode, rng, same_twice=False):
     bystander._grad = np.full((2, 3), 7.0, dtype=dtype)
     probs = []
     before = [snap(a) for a in arrs]
+    full0 = [snap_full(t)[:4] for t in ts]
     before_base = None
     if base is not None:
         before_base = [snap(b) for b in (base if isinstance(base, list) else [base])]
@@ -165,6 +166,10 @@ def run_op_case(impl, op, dtype, mode, rng, same_twice=False):
     for i, (o, s0) in enumerate(zip(outs, res_before_bw)):
         if snap(o.data) != s0:
             probs.append({"phase": "backward", "what": "result %d data changed during backward" % i, "diff": diff(np, s0, snap(o.data))})
+    for i, (t, f0) in enumerate(zip(ts, full0)):
+        if snap_full(t)[:4] != f0:
+            probs.append({"phase": "backward", "what": "operand %d: the tensor's .data was rebound / reshaped (array object, shape, strides or dtype changed)" % i,
+                          "diff": describe_full(f0, snap_full(t)[:4])})
     for o, g in zip(outs, gs):
         # the root's gradient buffer is the engine's own storage and holds exactly the seed
         if o._grad is not None:
@@ -472,31 +477,166 @@ def run_extra(ctx, impl, dtype, rng):
 
 
 def clone_detach(ctx, impl, dtype):
-    sg, np = impl.synapgrad, impl.np
+    """clone()/detach() return storage independent of their source, whatever the source is: tracked, untracked, a frozen
+    parameter, the result of a no_grad() computation, a view"""
+    sg, np, nn = impl.synapgrad, impl.np, impl.nn
     bad, cases = [], 0
-    for how in ("clone", "detach", "clone_of_view", "detach_of_view"):
+
+    def sources():
         base = np.arange(1, 13, dtype=dtype).reshape(3, 4)
-        src_arr = base.T if "view" in how else base
-        x = sg.Tensor(src_arr, requires_grad=True)
-        c = x.clone() if how.startswith("clone") else x.detach()
+        yield "tracked leaf", sg.Tensor(base.copy(), requires_grad=True)
+        yield "tracked view", sg.Tensor(base.copy().T, requires_grad=True)
+        yield "untracked tensor", sg.Tensor(base.copy(), requires_grad=False)
+        yield "untracked view", sg.Tensor(base.copy().T[1:], requires_grad=False)
+        p = nn.Parameter(sg.Tensor(base.copy(), requires_grad=True)); p.requires_grad = False
+        yield "frozen parameter", p
+        lin = nn.Linear(4, 3); lin.weight.data = lin.weight.data.astype(dtype); lin.freeze()
+        yield "frozen layer weight", lin.weight
+        t = sg.Tensor(base.copy(), requires_grad=True)
+        with sg.no_grad():
+            r = t * 2.0
+        yield "result computed under no_grad", r
+        yield "tracked non-leaf", sg.Tensor(base.copy(), requires_grad=True) * 2.0
+        yield "0-d tensor", sg.Tensor(np.array(3.5, dtype=dtype), requires_grad=False)
+    for how in ("clone", "detach"):
+        for sname, x in sources():
+            c = x.clone() if how == "clone" else x.detach()
+            cases += 1
+            tag = {"op": how, "source": sname}
+            if np.shares_memory(c.data, x.data) or c.data is x.data:
+                bad.append(dict(tag, what="result shares memory with its source"))
+            s0 = snap(x.data)
+            c.data += 100
+            if snap(x.data) != s0:
+                bad.append(dict(tag, what="in-place update of the copy changed the source"))
+            s1 = snap(c.data)
+            x.data *= 2                      # what an optimizer step / unfreeze + update does to the source
+            if snap(c.data) != s1:
+                bad.append(dict(tag, what="in-place update of the source changed the copy (snapshot taken with %s())" % how))
+    # gradient flows back through clone without touching the seed
+    x2 = sg.Tensor(np.arange(4, dtype=dtype), requires_grad=True)
+    g = sg.Tensor(np.ones(4, dtype=dtype)); g0 = snap(g.data)
+    x2.clone().backward(g)
+    cases += 1
+    if snap(g.data) != g0 or np.shares_memory(x2._grad, g.data):
+        bad.append({"op": "clone", "what": "clone backward aliased / changed the seed"})
+    return bad, cases
+
+
+def snap_full(t):
+    """everything observable about a tensor's storage: identity of the array object, shape, strides, dtype, bytes, gradient"""
+    d = t.data
+    return (id(d), tuple(d.shape), tuple(d.strides), str(d.dtype), d.tobytes(), None if t._grad is None else snap(t._grad))
+
+
+def describe_full(s0, s1):
+    names = ("array object", "shape", "strides", "dtype", "bytes", "grad")
+    return {n: ([a, b] if n not in ("bytes", "grad", "array object") else "changed") for n, a, b in zip(names, s0, s1) if a != b}
+
+
+def loss_modules(impl, dtype):
+    """loss MODULES and functional forms on (N,1)-vs-(N,) / (N,)-vs-(N,) / (N,1)-vs-(N,1) pairs: whatever the call does
+    (broadcasts, raises), the caller's prediction and target tensors keep array object, shape, strides, dtype and bytes"""
+    sg, np, nn, NF = impl.synapgrad, impl.np, impl.nn, impl.NF
+    bad, cases = [], 0
+    forms = [("MSELoss", lambda red: nn.MSELoss(red), "any"), ("BCELoss", lambda red: nn.BCELoss(red), "prob"),
+             ("BCEWithLogitsLoss", lambda red: nn.BCEWithLogitsLoss(red), "any"),
+             ("F.mse_loss", lambda red: NF.mse_loss, "any"), ("F.binary_cross_entropy", lambda red: NF.binary_cross_entropy, "prob"),
+             ("F.binary_cross_entropy_with_logits", lambda red: NF.binary_cross_entropy_with_logits, "any")]
+    N = 4
+    for name, mk, dom in forms:
+        for red in (("mean", "sum", "none") if not name.startswith("F.") else ("-",)):
+            for ps, ts_ in (((N, 1), (N,)), ((N,), (N,)), ((N, 1), (N, 1)), ((N,), (N, 1)), ((2, N, 1), (2, N))):
+                for treq in (False, True):
+                    impl.reset_modes()
+                    pv = np.linspace(0.2, 0.8, int(np.prod(ps)), dtype=dtype).reshape(ps) if dom == "prob" else np.linspace(-1, 1, int(np.prod(ps)), dtype=dtype).reshape(ps)
+                    tv = (np.arange(int(np.prod(ts_))) % 2).astype(dtype).reshape(ts_)
+                    y_pred = sg.Tensor(pv, requires_grad=True); y_true = sg.Tensor(tv, requires_grad=treq)
+                    p0, t0 = snap_full(y_pred), snap_full(y_true)
+                    cases += 1
+                    phase = "forward"
+                    try:
+                        with np.errstate(all="ignore"):
+                            out = mk(red)(y_pred, y_true)
+                            if snap_full(y_pred)[:5] != p0[:5] or snap_full(y_true)[:5] != t0[:5]:
+                                raise AssertionError("changed")
+                            phase = "backward"
+                            out.backward(sg.Tensor(np.ones(out.shape, dtype=dtype)))
+                    except AssertionError:
+                        pass
+                    except Exception:
+                        pass                    # shape mismatch rejected: fine, but the arguments must be untouched all the same
+                    for who, tt, s0 in (("prediction", y_pred, p0), ("target", y_true, t0)):
+                        s1 = snap_full(tt)
+                        if s1[:5] != s0[:5]:
+                            bad.append({"op": name, "reduction": red, "pred_shape": list(ps), "target_shape": list(ts_), "target_requires_grad": treq,
+                                        "phase": phase, "what": "the caller's %s tensor changed (%s)" % (who, ", ".join(describe_full(s0[:5], s1[:5]))),
+                                        "diff": describe_full(s0[:5], s1[:5])})
+    impl.reset_modes()
+    return bad, cases
+
+
+def flag_flips(impl, dtype, rng):
+    """requires_grad flags changed BETWEEN forward and backward (freeze / manual flips) on tensors that already hold a gradient:
+    a tensor that does not require grad when backward runs is outside the graph being differentiated - its gradient bytes and
+    its data must not change.  (Every closure of the unchanged code tests `<t>.requires_grad` at backward time - theorem
+    frozen_tensors_not_written - and the walk of backward reads the live flag too.)"""
+    from lib import opcatalog
+    sg, np, nn = impl.synapgrad, impl.np, impl.nn
+    bad, cases = [], 0
+    for op in opcatalog.catalog(impl):
+        diff_idx = [i for i, spec in enumerate(op.operands) if spec[2]]
+        if not diff_idx:
+            continue
+        for frozen_set in [[j] for j in diff_idx] + ([diff_idx] if len(diff_idx) > 1 else []):
+            impl.reset_modes()
+            arrs = [opcatalog.make_operand(impl, rng, spec, dtype) for spec in op.operands]
+            ts = [sg.Tensor(a, requires_grad=bool(spec[2])) for a, spec in zip(arrs, op.operands)]
+            for t in ts:
+                if t.requires_grad:
+                    t._grad = np.full(t.shape, 7.0, dtype=dtype)         # gradients already present
+            try:
+                out = op.call(ts)
+                outs = list(out) if op.multi else [out]
+                for j in frozen_set:
+                    ts[j].requires_grad = False                          # e.g. layer.freeze() after the forward pass
+                s0 = {j: snap_full(ts[j]) for j in frozen_set}
+                gs = upstream(impl, outs, dtype, rng)
+                with np.errstate(all="ignore"):
+                    for o, g in zip(outs, gs):
+                        if o.requires_grad:
+                            o.backward(g)
+                cases += 1
+                for j in frozen_set:
+                    s1 = snap_full(ts[j])
+                    if s1 != s0[j]:
+                        bad.append({"op": op.name, "frozen_operands": frozen_set, "operand": j, "phase": "backward",
+                                    "what": "operand %d did not require grad when backward ran, yet its %s changed" % (j, "gradient" if s1[5] != s0[j][5] else "data"),
+                                    "grad_before": [7.0], "grad_after": None if ts[j]._grad is None else [float(v) for v in ts[j]._grad.reshape(-1)[:4]]})
+            except Exception as ex:
+                bad.append({"op": op.name, "frozen_operands": frozen_set, "what": "raised %r" % (ex,)})
+    # module form: forward through layers, freeze(), backward towards the input
+    for lname, mk, xshape in (("Linear", lambda: nn.Linear(3, 2), (4, 3)), ("Conv1d", lambda: nn.Conv1d(2, 2, 2), (2, 2, 5)),
+                              ("Conv2d", lambda: nn.Conv2d(1, 2, 2), (2, 1, 4, 4)), ("BatchNorm1d", lambda: nn.BatchNorm1d(3), (4, 3)),
+                              ("Sequential(Linear,ReLU,Linear)", lambda: nn.Sequential(nn.Linear(3, 4), nn.ReLU(), nn.Linear(4, 2)), (4, 3))):
+        impl.reset_modes()
+        np.random.seed(11)
+        layer = mk()
+        for p in layer.parameters():
+            p.data = p.data.astype(dtype); p._grad = np.full(p.shape, 7.0, dtype=dtype)
+        x = sg.Tensor(np.linspace(-1, 1, int(np.prod(xshape)), dtype=dtype).reshape(xshape), requires_grad=True)
+        out = layer(x)
+        layer.freeze()
+        s0 = [snap_full(p) for p in layer.parameters()]
+        out.backward(sg.Tensor(np.ones(out.shape, dtype=dtype)))
         cases += 1
-        if np.shares_memory(c.data, x.data):
-            bad.append({"op": how, "what": "result shares memory with its source"})
-        s0 = snap(x.data)
-        c.data += 100
-        if snap(x.data) != s0:
-            bad.append({"op": how, "what": "in-place update of the copy is visible in the source"})
-        s1 = snap(c.data)
-        x.data *= 2
-        if snap(c.data) != s1:
-            bad.append({"op": how, "what": "in-place update of the source is visible in the copy"})
-        if how.startswith("clone"):
-            # gradient flows back through clone without touching the seed
-            x2 = sg.Tensor(np.arange(4, dtype=dtype), requires_grad=True)
-            g = sg.Tensor(np.ones(4, dtype=dtype)); g0 = snap(g.data)
-            x2.clone().backward(g)
-            if snap(g.data) != g0 or np.shares_memory(x2._grad, g.data):
-                bad.append({"op": how, "what": "clone backward aliased / changed the seed"})
+        for i, (p, a) in enumerate(zip(layer.parameters(), s0)):
+            if snap_full(p) != a:
+                bad.append({"op": "nn." + lname, "what": "parameter %d was frozen (layer.freeze()) after the forward pass, yet backward changed its gradient" % i,
+                            "phase": "backward", "grad_after": [float(v) for v in p._grad.reshape(-1)[:4]], "grad_before": [7.0]})
+        if x._grad is None or not np.any(x._grad != 0):
+            bad.append({"op": "nn." + lname, "what": "the input (still requiring grad) received no gradient"})
+    impl.reset_modes()
     return bad, cases
 
 
@@ -623,8 +763,8 @@ def run(ctx):
                 p["dtype"] = str(np.dtype(dt))
             problems += pe; cases += ce
             distinct |= {("extra", n, str(dt)) for n, _ in extra_programs(impl)}
-            for fn_ in (clone_detach, optimizer_effects):
-                bad, cc = fn_(ctx, impl, dt) if fn_ is clone_detach else fn_(impl, dt)
+            for fn_ in (clone_detach, optimizer_effects, loss_modules, flag_flips):
+                bad, cc = fn_(ctx, impl, dt) if fn_ is clone_detach else (fn_(impl, dt, rng) if fn_ is flag_flips else fn_(impl, dt))
                 for p in bad:
                     p["dtype"] = str(np.dtype(dt))
                 problems += bad; cases += cc
@@ -805,7 +945,7 @@ def replay(ctx, data):
                 print("REPRODUCED", json.dumps(probs[0], default=str)[:600]); return 1
         print("not reproduced"); return 0
     for dt in (np.float32, np.float64):
-        bad = clone_detach(ctx, impl, dt)[0] + optimizer_effects(impl, dt)[0]
+        bad = clone_detach(ctx, impl, dt)[0] + optimizer_effects(impl, dt)[0] + loss_modules(impl, dt)[0] + flag_flips(impl, dt, random.Random(3))[0]
         if bad:
             print("REPRODUCED", json.dumps(bad[0], default=str)[:600]); return 1
         pe, _ = run_extra(ctx, impl, dt, random.Random(1))
